@@ -61,6 +61,18 @@ PINS = {
  "R-VM": "reports functions that change, in place, a value they did not create; the PR's helper fills an accumulator set handed in by its own caller (fresh there)",
  "R-LB": "pins the switch an Overloaded delegates to (built per use from the live dispatch, table and default); the PR gives an abstract one a stand-in default of its own",
  "R-RK": "pins which kinds of provided values are inspected for template references; the PR moves the look-up into a helper",
+ "R-MC": "pins that MemoryCache addresses an entry by evaluatable.fingerprint(options) in get, set and exists; the PR computes the same bytes through a memoised fast path of its own (falling back to fingerprint() whenever that is overridden)",
+ "R-PK": "reports identity tests against module-level objects that do not survive pickling; the PR compares a function object with the stock fingerprint function to detect overrides (functions are pickled by reference)",
+ "R-GS": "reports module-level and per-thread state that survives the operation that wrote it; the PR keeps a per-thread memo of the current runtime by design and updates it wherever the table is written",
+ "R-PL": "pins default instance pickling (no __slots__) and pickling hooks only where a lock is dropped; the PR adds __slots__ together with __getstate__/__setstate__ that reproduce the un-slotted state",
+ "R-TK": "pins Template.evaluate (every returning path resolves the template against the options mixed with the parameters) and the per-key delegation; the PR adds a fast path for placeholder-free text that performs the same unescaping itself, and a memoised placeholder scan",
+ "R-SO": "pins the selection helpers (one selector behind the four operations, first member that validates and succeeds); the PR gives evaluate a loop of its own that does the same",
+ "R-SL": "reports operations applied to branches other than the selected one; the PR's own evaluate loop is not recognised as the selector",
+ "R-CE": "pins the error records of the cache protocol",
+ "R-CD": "pins the registered fall-through points (where an EvaluationError may be caught and the next alternative tried); the PR has one more place of the same kind (its own evaluate loop), or the analysis of the PR's recursive merge helper gives no verdict (path explosion, ANALYSIS-ERROR)",
+ "R-EG": "pins that explain() guards the evaluation of a selector; on this PR the analysis gives no verdict (path explosion in the PR's recursive merge helper, ANALYSIS-ERROR)",
+ "R-IS": "reports options-dependent state kept on expression objects; on this PR the analysis gives no verdict (path explosion, ANALYSIS-ERROR)",
+ "R-WI": "compares which elements keys()/explain() consult with what evaluate() consults; on this PR the analysis gives no verdict (path explosion, ANALYSIS-ERROR)",
 }
 
 def summary(d):
